@@ -31,7 +31,7 @@ Correspondence with the Rust code:
                           callers only log the error.
 * `cRemove`             — `Cache::remove` (`fs::remove_file`, fails on a directory; all callers only log its error).
 * `cEntry` / `cLinkEntry` / `cList` — `Cache::list_with_size`: regular files (`is_file`: not directories) below `<type dir>`
-                          whose name is `L` **lower-case** hex characters and (fix b1c5f4b) which lie at depth 2 in the directory
+                          whose name is `L` **lower-case** hex characters and (fix df325f2) which lie at depth 2 in the directory
                           named by their first two characters; (fix, wave T4) `follow_links(true)`: a symlink that resolves to a
                           regular file is an entry too, with that file's size.
 * `removeNotInList`     — `Cache::remove_not_in_list`: a cache entry stays iff the repository listing has the same id with the
